@@ -8,11 +8,20 @@
    float64 values: the theorems hold for EVERY carrier whose sort preserves the length, so in
    particular for Go's float64 with NaN and infinities. *)
 From Coq Require Import String.
-From Coq Require Import List ZArith.
-From GS Require Import Base.Bytes Model.GoPartial Model.Histogram Model.Stats Model.Rank
-  Model.FlushPartial Model.PayloadPartial.
-From GS Require Import Proofs.FlushSafety Proofs.FlushSafetyPayload Proofs.FlushSafetyMain
-  Proofs.FlushSafetyExamples Proofs.RankUnbounded Proofs.RankSweep.
+From Coq Require Import List ZArith Floats.
+From GS Require Import Base.Bytes.
+From GS Require Import Model.GoPartial.
+From GS Require Import Model.Histogram.
+From GS Require Import Model.Stats.
+From GS Require Import Model.Rank.
+From GS Require Import Model.FlushPartial.
+From GS Require Import Model.PayloadPartial.
+From GS Require Import Proofs.FlushSafety.
+From GS Require Import Proofs.FlushSafetyPayload.
+From GS Require Import Proofs.FlushSafetyMain.
+From GS Require Import Proofs.FlushSafetyExamples.
+From GS Require Import Proofs.RankUnbounded.
+From GS Require Import Proofs.RankSweep.
 Import ListNotations.
 Local Open Scope Z_scope.
 
@@ -23,6 +32,15 @@ Theorem C04_rank_in_range : forall p n,
   -100 <= p <= 100 -> 0 <= n < 2^52 -> 0 <= rank p n <= n.
 Proof. exact rank_in_range_unbounded. Qed.
 Print Assumptions C04_rank_in_range.
+
+(* The same for ANY float64 threshold (the configuration accepts non-integers such as 99.9) with
+   |pct| <= 100 as Go's float comparison decides it (false for NaN):
+   rank_float pct n = int(math.Floor(math.Abs(pct) / 100 * float64(n) + 0.5)). *)
+Theorem C04_rank_in_range_float : forall (pct : PrimFloat.float) (n : Z),
+  PrimFloat.leb (PrimFloat.abs pct) (f64_of_int 100) = true -> 0 <= n < 2^52 ->
+  0 <= rank_float pct n <= n.
+Proof. exact rank_float_in_range. Qed.
+Print Assumptions C04_rank_in_range_float.
 
 (* The same by exhaustive evaluation of the float computation, without the real-number axioms:
    201 percentiles x counts 0..2000. *)
